@@ -22,7 +22,8 @@ SPEC = {
                     "algosdk.abi encodes sample values per ARC-4"],
     "min_evaluations": {"quick": 60000, "thorough": 300000},
     "must_reach": ["assignable_true", "assignable_false", "contract_evaluations", "call_built", "call_rejected",
-                   "inner_call_built", "inner_call_rejected", "encoding_samples_compared"],
+                   "inner_call_built", "inner_call_rejected", "encoding_samples_compared", "assign_built", "assign_rejected", "assign_value_preserved",
+                   "named_tuple_pairs_same_class_name"],
     "exhaustive": {"quick": True, "thorough": True},
 }
 
@@ -239,6 +240,116 @@ def try_call(pt, acc, rng, a, b):
         acc.counters["inner_call_other_exception:" + type(e).__name__] += 1
 
 
+def _flat(v):
+    """A decoded / generated ABI value with the spelling differences removed (str -> utf-8 bytes -> ints, bytes -> ints,
+    base32 address -> 32 ints, tuples -> lists, bool stays bool)."""
+    from algosdk import encoding
+    if isinstance(v, bool):
+        return v
+    if isinstance(v, int):
+        return v
+    if isinstance(v, str):
+        if len(v) == 58:
+            try:
+                return list(encoding.decode_address(v))
+            except Exception:
+                pass
+        return list(v.encode("utf-8"))
+    if isinstance(v, (bytes, bytearray)):
+        return list(v)
+    if isinstance(v, (list, tuple)):
+        return [_flat(x) for x in v]
+    return v
+
+
+def try_assign(pt, acc, rng, a, b):
+    """Assign a value of type a to an instance of type b through the assignment entry points (set(ABI value), set(ComputedValue),
+    ComputedValue.store_into) and *execute* the result: when PyTeal accepts the assignment, the bytes that end up in the target must
+    decode under b to the value that was encoded under a.  (No knowledge of which paths convert and which copy raw bytes is used.)"""
+    from .. import abigen, avm
+    from ..common import PT_ERRORS, reset_globals
+    reset_globals()
+    abi = pt.abi
+    na, nb = norm(pt, a), norm(pt, b)
+    if not (encodable(na) and encodable(nb)):
+        return
+    try:
+        sa, sb = abigen.sdk(str(a)), abigen.sdk(str(b))
+        ann_a = a.annotation_type()
+    except Exception:
+        acc.counters["assign_unbuildable"] += 1
+        return
+    how = rng.choice(["set", "computed_set", "store_into"])
+    if how == "set" and isinstance(b, abi.TupleTypeSpec):
+        how = "store_into"  # Tuple.set(*values) takes the elements, not a tuple
+    v = abigen.rand_val(rng, sa)
+    enc = sa.encode(v)
+    if len(enc) > 1500:
+        return
+    case = {"a": str(a), "b": str(b), "how": how, "a_class": type(a).__name__, "b_class": type(b).__name__}
+    try:
+        src, dst = a.new_instance(), b.new_instance()
+        if how == "set":
+            assign = dst.set(src)
+        else:
+            def mk(*, output):
+                return output.decode(pt.Txn.application_args[0])
+            mk.__annotations__ = {"output": ann_a}
+            fn = pt.ABIReturnSubroutine(mk)
+            assign = dst.set(fn()) if how == "computed_set" else fn().store_into(dst)
+        prog = pt.Seq(src.decode(pt.Txn.application_args[0]), assign, pt.Log(dst.encode()), pt.Int(1))
+        teal = pt.compileTeal(prog, pt.Mode.Application, version=rng.choice([6, 8, 10]))
+    except PT_ERRORS:
+        acc.counters["assign_rejected"] += 1
+        if same_layout(pt, a, b):
+            acc.counters["assign_rejected_same_layout(not judged)"] += 1
+        return
+    except Exception as e:
+        acc.counters["assign_other_exception:" + type(e).__name__] += 1
+        return
+    acc.counters["assign_built"] += 1
+    acc.counters["assign_built_" + how] += 1
+    try:
+        r = avm.run(avm.parse_any(teal), avm.Ctx(group=[{"ApplicationArgs": [enc]}]))
+    except (avm.Unsupported, avm.Timeout):
+        return
+    if r.status != "approve" or len(r.logs) != 1:
+        # a conversion that cannot represent the value may fail at run time (uint64 -> uint8); silently wrong bytes are the subject here
+        acc.counters["assign_fails_at_runtime"] += 1
+        if same_layout(pt, a, b):
+            acc.violation("assignment_same_layout_fails", case, "assignment between identically laid out types fails at run time: %s" % r.error, teal=teal[-1500:])
+        return
+    out = r.logs[0]
+    # expected: the same value encoded under b's normalised layout (uint8 for byte, uint8[32] for address, uint8[] for string),
+    # so that spelling differences and value-preserving conversions (uint8 -> uint64) are all accepted
+    try:
+        expected = abigen.sdk(nb).encode(_flat(v))
+    except Exception as e:
+        acc.violation("assignment_changes_value", case, "%s value %r was assigned to %s (%s) and the program approves, but %s cannot represent that value (%s)"
+                      % (a, v, b, how, b, str(e)[:80]), teal=teal[-1500:])
+        return
+    if out != expected:
+        acc.violation("assignment_changes_value", case, "%s value %r assigned to %s (%s): the target holds %s, the value's encoding under %s is %s"
+                      % (a, v, b, how, out.hex()[:120], b, expected.hex()[:120]), teal=teal[-1500:])
+        return
+    acc.counters["assign_value_preserved"] += 1
+
+
+def named_variants(pt, rng, a, b):
+    """NamedTuple classes (all called 'Rec', so they share __name__ and __qualname__) over the fields of two tuple types."""
+    abi = pt.abi
+    out = []
+    for t in (a, b):
+        if type(t) is not abi.TupleTypeSpec or not t.value_type_specs():
+            return None
+        try:
+            ann = {"f%d" % i: abi.Field[x.annotation_type()] for i, x in enumerate(t.value_type_specs())}
+        except TypeError:
+            return None
+        out.append(type("Rec", (abi.NamedTuple,), {"__annotations__": ann})().type_spec())
+    return out
+
+
 def run_shard(shard):
     import pyteal as pt
     from .. import abigen
@@ -253,6 +364,8 @@ def run_shard(shard):
                 if str(a) == c.get("a") and str(b) == c.get("b") and (not c.get("a_class") or (type(a).__name__ == c["a_class"] and type(b).__name__ == c["b_class"])):
                     judge_pair(pt, acc, a, b, orig(a, b), "replay")
                     try_call(pt, acc, rng_for(0, "r"), a, b)
+                    for k in range(12):
+                        try_assign(pt, acc, rng_for(k, "r"), a, b)
         try:
             a, b = spec_from_str(pt, c["a"]), spec_from_str(pt, c["b"])
             judge_pair(pt, acc, a, b, orig(a, b), "replay")
@@ -286,11 +399,30 @@ def run_shard(shard):
             continue
         judge_pair(pt, acc, a, b, orig(a, b), "random pair")
         judge_pair(pt, acc, b, a, orig(b, a), "random pair")
+        if rng.random() < .2:
+            nv = named_variants(pt, rng, a, b)
+            if nv:
+                acc.counters["named_tuple_pairs_same_class_name"] += 1
+                judge_pair(pt, acc, nv[0], nv[1], orig(nv[0], nv[1]), "named tuple classes with one name")
+                judge_pair(pt, acc, nv[1], nv[0], orig(nv[1], nv[0]), "named tuple classes with one name")
+                if rng.random() < .1:
+                    try_call(pt, acc, rng, nv[0], nv[1])
         if len(acc.samples) < 3 and ts != us:
             acc.sample({"a": ts, "b": us, "assignable(a,b)": orig(a, b), "layout_a": norm(pt, a), "layout_b": norm(pt, b)})
     # real constructions (these drive the contract)
+    # near-miss classes of the universe: types whose layouts differ only in an element width / kind (uint8[] vs uint16[] vs bool[],
+    # byte[] in its three spellings, (uint64,byte) vs (uint64,uint8) ...)
+    import re
+    classes = {}
+    for t in U:
+        classes.setdefault(re.sub(r"uint\d+|bool", "u", norm(pt, t)), []).append(t)
+    near = [v for v in classes.values() if len(v) >= 2]
     for _ in range(shard["calls"]):
-        if rng.random() < .5:
+        r0 = rng.random()
+        if r0 < .35:
+            a, b = rng.sample(rng.choice(near), 2)
+            acc.counters["near_miss_constructions"] += 1
+        elif r0 < .5:
             a, b = rng.choice(U), rng.choice(U)
         else:
             ts = abigen.rand_type(rng, maxdepth=rng.choice([1, 2, 3]))
@@ -302,6 +434,7 @@ def run_shard(shard):
             if rng.random() < .5:
                 a, b = b, a
         try_call(pt, acc, rng, a, b)
+        try_assign(pt, acc, rng, a, b)
     return acc.result()
 
 
